@@ -108,17 +108,6 @@ theorem C20_many_substitutions_inert (ps : List (List Char × List Char)) (st : 
     rw [hv]
     exact ih _ hr
 
-/-- A browser's decoding of the character references the escaper emits (the six it can produce). -/
-def decodeRefs : List Char → List Char
-  | '&' :: '#' :: '3' :: '4' :: ';' :: r => '"' :: decodeRefs r
-  | '&' :: 'a' :: 'm' :: 'p' :: ';' :: r => '&' :: decodeRefs r
-  | '&' :: '#' :: '3' :: '9' :: ';' :: r => '\'' :: decodeRefs r
-  | '&' :: '#' :: '4' :: '3' :: ';' :: r => '+' :: decodeRefs r
-  | '&' :: 'l' :: 't' :: ';' :: r => '<' :: decodeRefs r
-  | '&' :: 'g' :: 't' :: ';' :: r => '>' :: decodeRefs r
-  | c :: r => c :: decodeRefs r
-  | [] => []
-
 theorem decodeRefs_plain (c : Char) (r : List Char) (h : c ≠ '&') : decodeRefs (c :: r) = c :: decodeRefs r := by
   rw [decodeRefs.eq_def]
   split <;> simp_all
